@@ -22,6 +22,8 @@ class Check:
         self.trusted = []
         self.assumptions = []
         self.floors = []           # (name, counted, floor)
+        self.level = "other"
+        self.coverage_extra = {}
 
     # -- recording
     def ok(self, rule, instance, detail="", site=None, nontrivial=True):
@@ -109,7 +111,7 @@ class Check:
             "property_id": self.pid,
             "tier": self.tier,
             "seed": self.seed,
-            "level": "other",
+            "level": self.level,
             "coverage": {
                 "explanation": self.explanation,
                 "rule": self.rule_text,
@@ -130,6 +132,12 @@ class Check:
             "wall_s": round(time.time() - self.t0, 3),
             "violations": len(new),
         }
+        ev["coverage"].update(self.coverage_extra)
+        if self.level == "translation_validation":
+            ev["coverage"].setdefault("programs", max(1, len(nontriv)))
+            ev["coverage"].setdefault("disagreements_checked", len(self.violations))
+        if self.level == "proof":
+            ev["coverage"].setdefault("checker_cmd", "./check %s --tier %s" % (self.pid, self.tier))
         with open(os.path.join(evdir, "%s.json" % self.pid), "w") as fh:
             json.dump(ev, fh, indent=1, default=str)
         print("%s: %d obligations, %d discharged, %d known finding(s), %d new violation(s) [%s, %.1fs]"
